@@ -53,6 +53,17 @@ type pwPath struct {
 	loadHook  func(*pwPath, *ssa.UnOp) (constant.Value, bool) // consulted when a load executes and no store on this path determines it
 	unknown   map[string]bool                                 // objects overwritten as a whole by a value that is not tracked
 	loadAt    map[ssa.Value]int                               // load -> number of events recorded when it (last) executed
+	marks     []pwMark                                        // every re-entry of a block on this path
+}
+
+// pwMark: a block was entered again (a loop went round) when the path had this many decisions and events.
+type pwMark struct {
+	block      *ssa.BasicBlock
+	nDecisions int
+	nEvents    int
+	// ... and this many at the previous arrival at the block (the way round lies between the two)
+	fromDecisions int
+	fromEvents    int
 }
 
 // addrKey is a canonical key for the address of a field of a (resolved)
@@ -262,6 +273,7 @@ type pwState struct {
 	deferring bool
 	exiting   *ssa.BasicBlock         // loop header being left (second arrival)
 	arrived   map[*ssa.BasicBlock]int // number of decisions at the latest arrival at a block
+	arrivedEv map[*ssa.BasicBlock]int // number of events at the latest arrival at a block
 }
 
 type pathWalker struct {
@@ -275,6 +287,8 @@ type pathWalker struct {
 	paths    []*pwPath
 	overflow bool
 	noTables bool // do not resolve lookups in constant tables (used while the tables themselves are built)
+	// stopCall: the path ends (end == "stop") at this call, which is recorded as its last event
+	stopCall func(p *pwPath, frameFn *ssa.Function, c *ssa.Call) bool
 }
 
 func (p *pwPath) clone() *pwPath {
@@ -293,6 +307,7 @@ func (p *pwPath) clone() *pwPath {
 	for k, v := range p.unknown {
 		q.unknown[k] = v
 	}
+	q.marks = append([]pwMark(nil), p.marks...)
 	q.decisions = append([]pwDecision(nil), p.decisions...)
 	q.events = append([]ssa.Instruction(nil), p.events...)
 	q.evDecided = append([]int(nil), p.evDecided...)
@@ -334,6 +349,10 @@ func (s *pwState) clone() *pwState {
 	t.arrived = make(map[*ssa.BasicBlock]int, len(s.arrived))
 	for k, v := range s.arrived {
 		t.arrived[k] = v
+	}
+	t.arrivedEv = make(map[*ssa.BasicBlock]int, len(s.arrivedEv))
+	for k, v := range s.arrivedEv {
+		t.arrivedEv[k] = v
 	}
 	t.inlined = make(map[*ssa.Function]bool, len(s.inlined))
 	for k, v := range s.inlined {
@@ -559,7 +578,7 @@ func (pw *pathWalker) walk(fn *ssa.Function) {
 	}
 	root := &pwFrame{fn: fn}
 	st := &pwState{frame: root, block: fn.Blocks[0], p: &pwPath{seed: pw.seed, loadHook: pw.loadHook, loadAt: map[ssa.Value]int{}, unknown: map[string]bool{}, consts: map[ssa.Value]constant.Value{}, alias: map[ssa.Value]ssa.Value{}, tuples: map[ssa.Value][]ssa.Value{}, mem: map[string]ssa.Value{}, stores: map[string]ssa.Value{}},
-		decided: map[ssa.Value]bool{}, arrived: map[*ssa.BasicBlock]int{}, visits: map[*ssa.BasicBlock]int{}, inlined: map[*ssa.Function]bool{fn: true}}
+		decided: map[ssa.Value]bool{}, arrived: map[*ssa.BasicBlock]int{}, arrivedEv: map[*ssa.BasicBlock]int{}, visits: map[*ssa.BasicBlock]int{}, inlined: map[*ssa.Function]bool{fn: true}}
 	// states are independent once forked: explore them on all cores; the result is put into a
 	// canonical order afterwards so that reports do not depend on scheduling
 	var (
@@ -662,13 +681,16 @@ func (pw *pathWalker) run(s *pwState) []*pwState {
 		if s.idx == 0 {
 			s.visits[b]++
 			prevArr, seenBefore := s.arrived[b]
+			prevEv := s.arrivedEv[b]
 			s.arrived[b] = len(s.p.decisions)
+			s.arrivedEv[b] = len(s.p.events)
 			if s.visits[b] > 1 {
 				s.p.revisits++
 				if s.p.revisited == nil {
 					s.p.revisited = map[*ssa.BasicBlock]int{}
 				}
 				s.p.revisited[b]++
+				s.p.marks = append(s.p.marks, pwMark{b, len(s.p.decisions), len(s.p.events), prevArr, prevEv})
 				s.p.loopHead = b
 				s.p.loopFree = seenBefore && prevArr == len(s.p.decisions)
 				// the block's values are computed afresh in the next iteration
@@ -765,6 +787,7 @@ func (pw *pathWalker) run(s *pwState) []*pwState {
 						for _, cb := range callee.Blocks {
 							delete(s.visits, cb)
 							delete(s.arrived, cb)
+							delete(s.arrivedEv, cb)
 						}
 						nf.sub = map[ssa.Value]ssa.Value{}
 						bind = nf.sub
@@ -782,6 +805,12 @@ func (pw *pathWalker) run(s *pwState) []*pwState {
 					s.frame = nf
 					s.block, s.pred, s.idx = callee.Blocks[0], nil, 0
 					goto nextBlock
+				}
+				if pw.stopCall != nil && pw.stopCall(s.p, s.frame.fn, x) {
+					s.p.events = append(s.p.events, ins)
+					s.p.evDecided = append(s.p.evDecided, len(s.p.decisions))
+					pw.finish(s, "stop", nil)
+					return nil
 				}
 				s.p.events = append(s.p.events, ins)
 				s.p.evDecided = append(s.p.evDecided, len(s.p.decisions))
@@ -816,10 +845,19 @@ func (pw *pathWalker) run(s *pwState) []*pwState {
 							src = s.p.addrKey(ld.X)
 						}
 						delete(s.p.unknown, k)
+						zero := false
+						if c, ok := v.(*ssa.Const); ok && c.Value == nil {
+							zero = true // the zero value of the struct type: every field is zero
+						}
 						for i := 0; i < st.NumFields(); i++ {
 							fk := fmt.Sprintf("%s.%d", k, i)
 							delete(s.p.mem, fk)
 							delete(s.p.stores, fk)
+							if zero {
+								z := zeroConst(st.Field(i).Type())
+								s.p.mem[fk], s.p.stores[fk] = z, z
+								continue
+							}
 							if src == "" || s.p.unknown[src] {
 								continue
 							}
@@ -827,7 +865,7 @@ func (pw *pathWalker) run(s *pwState) []*pwState {
 								s.p.mem[fk], s.p.stores[fk] = sv, sv
 							}
 						}
-						if src == "" || s.p.unknown[src] {
+						if !zero && (src == "" || s.p.unknown[src]) {
 							s.p.unknown[k] = true
 						}
 					}
